@@ -6,10 +6,14 @@ UP / DOWN and TOPOLOGY_CHANGE NEW_NODE / REMOVED_NODE events arrive on the contr
 node leaves / re-enters the peers table, the application asks for a node-list refresh, the next
 (or second-next) executor task runs, the executor runs dry, the earliest scheduled task fires}.
 Every transition runs the real Cluster / Session / ControlConnection / HostConnection /
-_HostReconnectionHandler code over the virtual server, executor and scheduler.
+_HostReconnectionHandler code over the virtual server, executor and scheduler.  Two configurations
+connect TWO sessions to the cluster (a host is added / a down host is reconnected, every session is
+asked for a pool, the node may refuse exactly one connection attempt, the pool creations finish in
+either order, either session's pool connection may die); an up host must have a pool in every session.
 
 Engine S: two or three executor workers start with on_up / on_down / a due reconnection attempt /
-remove_host for the same host (SCENARIOS) and then drain the executor; every source line of the
+remove_host for the same host, or with the two sessions' pool creations of a host addition / of on_up
+(SCENARIOS), and then drain the executor; every source line of the
 state-change handlers is a scheduling point; all executions within the preemption bound are judged
 by the same oracle once everything has run.
 """
@@ -24,23 +28,31 @@ META = {
     'engine': 'E+S',
     'technique': 'explicit-state BFS over host-event histories on the real Cluster/Session/ControlConnection with canonical-state '
                  'dedup, plus preemption-bounded schedule enumeration of on_up / on_down / remove_host racing for one host',
-    'text': 'History layer: all histories up to the depth and environment-event bounds, for 2-3 hosts, one session, one '
-            'registered listener and one recording load-balancing policy, of: a pool connection dies and the pool reports it; '
-            'the node refuses / accepts / rejects the credentials of new connections; STATUS_CHANGE UP / DOWN; the node leaves '
+    'text': 'History layer: all histories up to the depth and environment-event bounds, for 2-3 hosts, one session (two sessions '
+            'in the configurations sessions-add, where the target host is not yet known to the driver and is added, and '
+            'sessions-up, where it starts down with its reconnector), one '
+            'registered listener and one recording load-balancing policy, of: a pool connection (of either session) dies and the '
+            'pool reports it; the node refuses / accepts / rejects the credentials of new connections, or (two-session '
+            'configurations) refuses exactly the next connection attempt, so that the pool creations that on_add() / on_up() '
+            'queue for the sessions succeed or fail independently and complete in either order; STATUS_CHANGE UP / DOWN; the node leaves '
             'or (re)joins the ring with or without its TOPOLOGY_CHANGE event, repeated events; application node-list refresh; '
             'run the next executor task (window 1-2) / run the executor dry; fire the earliest scheduled task.  Whenever the '
             'executor is idle: a member host that is down and not ignored has exactly one un-cancelled scheduled reconnection '
             'handler and it is Host._reconnection_handler; a Host instance that left the metadata has none and no open pool; '
-            'an up host has none and has a live pool in the session; what the listener and the policy were told never '
+            'an up host has none and has a live pool in every session; what the listener and the policy were told never '
             'repeats (up,up / down,down / add,add / same instance removed twice / up or add after remove) and agrees with '
             'Host.is_up and metadata membership.  Schedule layer: 2-3 executor workers start with on_up / on_down / a due '
-            'reconnection attempt / remove_host for the same host and then drain the executor; every source line of the '
+            'reconnection attempt / remove_host for the same host, or (two sessions) with the two pool creations that on_add() / '
+            'on_up() queued, none or exactly one of them refused, and then drain the executor; every source line of the '
             'state-change handlers is a scheduling point; all executions within the preemption bound are judged by the same '
             'oracle after the executor ran dry.',
     'note': 'Handlers are atomic in the history layer; intra-handler preemption only in the schedule layer (line granularity, '
             'instantaneous network).  Host 10.0.0.1 carries the control connection and is never a target.  A reconnection series '
             'ended by AuthenticationFailed (documented stop condition) is not counted as a missing reconnector.  The virtual '
-            'scheduler keeps the uniqueness rule of cluster._Scheduler; the real _Scheduler thread is not run.',
+            'scheduler keeps the uniqueness rule of cluster._Scheduler; the real _Scheduler thread is not run.  With two sessions '
+            'Cluster.sessions (a WeakSet) is replaced by an insertion-ordered WeakSet so that rebuilt worlds agree on which '
+            'session is asked first; which pool creation completes first is enumerated.  A host that is neither up nor down '
+            '(is_up None: its addition has not completed) is not judged by the pool / reconnector clauses.',
     'design_ref': 'C25',
 }
 
@@ -58,7 +70,19 @@ class H(explore.Harness):
     def init(self):
         from vt.c25lib import HostWorld
         gc.disable()            # Session.__del__ -> shutdown() of a dead world must not run inside a live one
-        return HostWorld(self.params)
+        st = HostWorld(self.params)
+        pre = self.params.get('pre')
+        if pre:
+            # the configuration's start state: a fixed prefix in the same alphabet, not counted in the bounds
+            try:
+                for ev in pre:
+                    self.apply(st, tuple(ev))
+                for k in st.stats:      # (the notification logs are kept: the observers heard the prefix too)
+                    st.stats[k] = 0
+            except BaseException:
+                st.close()
+                raise
+        return st
 
     def cleanup(self, st):
         st.close()
@@ -72,10 +96,14 @@ class H(explore.Harness):
         evs = []
         kinds = p['kinds']
         for a in p['targets']:
-            if 'fail' in kinds and st.can_fail(a):
-                evs.append((('fail', a), ENV_COST))
+            if 'fail' in kinds:
+                # the connection of one session's pool dies (every session has its own pool per host)
+                for si in range(len(st.sessions)):
+                    if st.can_fail(a, si):
+                        evs.append((('fail', a) if si == 0 else ('fail', a, si), ENV_COST))
             for m in p.get('modes', ()):
-                if m != st.mode[a]:
+                # 'once': the node refuses exactly the next connection attempt (whichever session or reconnector makes it)
+                if m != st.mode[a] and (m != 'once' or st.mode[a] == 'up'):
                     evs.append((('mode', a, m), ENV_COST))
             if 'status' in kinds:
                 evs.append((('status', a, 'UP'), ENV_COST))
@@ -108,7 +136,7 @@ class H(explore.Harness):
         before = self.snapshot(st)
         k = ev[0]
         if k == 'fail':
-            st.fail_pool_connection(ev[1])
+            st.fail_pool_connection(ev[1], ev[2] if len(ev) > 2 else 0)
         elif k == 'mode':
             st.set_mode(ev[1], ev[2])
         elif k == 'status':
@@ -167,14 +195,22 @@ class H(explore.Harness):
         pv = views(st.plog, st.initial_members, st.addrs)
         for a in st.addrs:
             h = st.host(a)
+            if h is None:
+                # an address the driver has not heard of yet (not in the peers table when it connected)
+                hosts.append((a, None, st.mode[a], a in st.gone))
+                continue
             member = st.in_metadata(a)
-            pool = st.pool(a)
             rh = h._reconnection_handler
-            pc = None
-            if pool is not None:
-                c = pool._connection
-                pc = (pool.is_shutdown, pool._is_replacing, pool.shutdown_on_error,
-                      None if c is None else (c.is_closed, c.is_defunct, c.signaled_error))
+            pcs = []
+            for si in range(len(st.sessions)):
+                pool = st.pool(a, si)
+                pc = None
+                if pool is not None:
+                    c = pool._connection
+                    pc = (pool.is_shutdown, pool._is_replacing, pool.shutdown_on_error,
+                          None if c is None else (c.is_closed, c.is_defunct, c.signaled_error))
+                pcs.append(pc)
+            pc = pcs[0] if len(pcs) == 1 else tuple(pcs)
             hosts.append((a, member, h.is_up, h._currently_handling_node_up,
                           None if rh is None else (rh._cancelled, rh.is_host_addition,
                                                    any(x is rh for x, _ in st.handlers())),
@@ -233,10 +269,12 @@ def judge(st, params, part, data, when, fp='C25/'):
         part.count('idle_states_judged')
         lv = views(st.llog, st.initial_members, st.addrs)
         pv = views(st.plog, st.initial_members, st.addrs)
-        session = st.session
+        many = len(st.sessions) > 1
         for a in st.addrs:
             member = st.in_metadata(a)
             h = st.host(a)
+            if h is None:
+                continue            # the driver has never heard of this address
             live = st.live_handlers(a)
             mine = [(x, wh) for x, wh in live if x.host is h and member]
             stale = [(x, wh) for x, wh in live if not (x.host is h and member)]
@@ -268,22 +306,30 @@ def judge(st, params, part, data, when, fp='C25/'):
                                        '%s: the scheduled un-cancelled handler is not Host._reconnection_handler (%r), '
                                        'so a later on_up/on_remove cannot cancel it' % (where, h._reconnection_handler), data)
             if not member:
-                pool = session._pools.get(h)
-                if pool is not None and not pool.is_shutdown:
-                    part.violation(fp + 'pool/removed-host-has-pool' + sfx,
-                                   '%s: the host left the metadata, the executor is idle and the session still has '
-                                   'an open pool for it (is_up=%r)' % (where, h.is_up), data)
+                for si, session in enumerate(st.sessions):
+                    pool = session._pools.get(h)
+                    if pool is not None and not pool.is_shutdown:
+                        part.violation(fp + 'pool/removed-host-has-pool' + sfx,
+                                       '%s: the host left the metadata, the executor is idle and the session%s still has '
+                                       'an open pool for it (is_up=%r)' % (where, ' #%d' % si if many else '', h.is_up), data)
             if member and h.is_up is True:
                 if mine:
                     part.violation(fp + 'reconnector/live-for-up-host' + sfx,
                                    '%s: is_up=True but %d un-cancelled reconnection handler(s) still scheduled'
                                    % (where, len(mine)), data)
                 if a not in ignored:
-                    pool = session._pools.get(h)
-                    if pool is None or pool.is_shutdown:
-                        part.violation(fp + 'pool/up-host-without-pool' + sfx,
-                                       '%s: is_up=True, not ignored, executor idle, and the session has %s'
-                                       % (where, 'no pool' if pool is None else 'only a shut-down pool'), data)
+                    # ... in every session
+                    pools = [session._pools.get(h) for session in st.sessions]
+                    missing = [si for si, pool in enumerate(pools) if pool is None or pool.is_shutdown]
+                    # a host that is up for the cluster while some, but not all, sessions lack the pool is filed apart
+                    clause = 'pool/up-host-without-pool' if len(missing) == len(pools) else 'pool/up-host-pool-missing-in-some-session'
+                    for si in missing:
+                        part.violation(fp + clause + sfx,
+                                       '%s: is_up=True, not ignored, executor idle, and the session%s has %s'
+                                       % (where, ' #%d (of %d)' % (si, len(pools)) if many else '',
+                                          'no pool' if pools[si] is None else 'only a shut-down pool'), data)
+                    if many:
+                        part.count('idle_states_up_host_judged_in_every_session')
             for who, vs in (('listener', lv), ('policy', pv)):
                 v = vs[a]
                 for d in v.dups:
@@ -319,7 +365,11 @@ def _focus():
            pl._HostReconnectionHandler.on_reconnection]
     if hasattr(C, '_is_current_host'):
         fns.append(C._is_current_host)
-    return [f.__code__ for f in fns]
+    codes = [f.__code__ for f in fns]
+    # the host-addition path (what the two-session scenarios race on): on_add with its completion callback, _finalize_add
+    codes += [C.on_add.__code__, C._finalize_add.__code__]
+    codes += [c for c in C.on_add.__code__.co_consts if isinstance(c, type(C.on_add.__code__))]
+    return codes
 
 
 SCENARIOS = {
@@ -342,6 +392,18 @@ SCENARIOS = {
     'down-vs-remove': ([('fail', T)], ['task', 'remove']),
     # three-way: failure, UP event, failure report of a pool creation
     'down-up-down': ([('fail', T)], ['task', 'on_up', 'on_down_expected']),
+    # ---- two sessions (third element: world parameters of the scenario).  Two workers each run one session's pool
+    # creation, so the two completion callbacks (and what they queue) race.
+    # a host is being added: on_add() asked both sessions for a pool; both connection attempts succeed
+    'add-2s': ([('join', T), ('fire',), ('task', 0)], ['task', 'task'], dict(sessions=2, initial_gone=[T])),
+    # ... the node refuses exactly one of the two attempts (whichever comes first)
+    'add-2s-one-refused': ([('join', T), ('fire',), ('task', 0), ('mode', T, 'once')], ['task', 'task'],
+                           dict(sessions=2, initial_gone=[T])),
+    # the host is down, its reconnection attempt got through and on_up() asked both sessions for a pool
+    'up-2s': ([('mode', T, 'down'), ('fail', T), ('fail', T, 1), ('drain',), ('mode', T, 'up'), ('fire',), ('task', 0)],
+              ['task', 'task'], dict(sessions=2)),
+    'up-2s-one-refused': ([('mode', T, 'down'), ('fail', T), ('fail', T, 1), ('drain',), ('mode', T, 'up'), ('fire',), ('task', 0),
+                           ('mode', T, 'once')], ['task', 'task'], dict(sessions=2)),
 }
 
 
@@ -374,17 +436,19 @@ def s_harness(params, prefix, part):
     keep taking queued tasks until the queue is empty; the server's answers arrive instantly.
     Judged with the same oracle as the history layer once everything has run."""
     import cassandra.cluster as cl
+    # the scenario is the first (free) data choice of the execution, so that one exploration - one worker pool -
+    # covers a whole group of scenarios
+    group = params['scenarios']
+    k = prefix[0] if prefix and len(group) > 1 else 0
+    if not 0 <= k < len(group):
+        raise HarnessError('scenario choice %r out of range' % (k,))
+    scenario, gone = group[k]
+    setup, calls = SCENARIOS[scenario][:2]
+    if len(SCENARIOS[scenario]) > 2:
+        params = dict(params, **SCENARIOS[scenario][2])
     h = H(params)
     st = h.init()
     try:
-        # the scenario is the first (free) data choice of the execution, so that one exploration - one worker pool -
-        # covers a whole group of scenarios
-        group = params['scenarios']
-        k = prefix[0] if prefix and len(group) > 1 else 0
-        if not 0 <= k < len(group):
-            raise HarnessError('scenario choice %r out of range' % (k,))
-        scenario, gone = group[k]
-        setup, calls = SCENARIOS[scenario]
         for ev in setup:
             h.apply(st, tuple(ev))
         if gone:
@@ -397,11 +461,16 @@ def s_harness(params, prefix, part):
         if s.choose(len(group), 'scenario') != k:
             raise HarnessError('scenario choice is not the first choice point')
         done = {'n': 0}
-        first = w.tasks[0] if w.tasks else None
-        if first is not None:
-            del w.tasks[0]
+        # every 'task' worker starts with one of the tasks that are queued after the setup, in queue order
+        firsts = []
+        for kind in calls:
+            if kind == 'task' and w.tasks:
+                firsts.append(w.tasks[0])
+                del w.tasks[0]
+        if len(firsts) != calls.count('task'):
+            raise HarnessError('scenario %s: %d task(s) queued after the setup, %d wanted' % (scenario, len(firsts), calls.count('task')))
 
-        def call(kind):
+        def call(kind, first=None):
             if kind == 'on_up':
                 cluster.on_up(host)
             elif kind == 'on_down':
@@ -424,11 +493,13 @@ def s_harness(params, prefix, part):
                     fut.set_result(r)
 
         def worker(kind):
+            first = firsts.pop(0) if kind == 'task' else None
+
             def body():
                 try:
                     if kind == 'worker':
                         s.block(lambda: bool(w.tasks) or done['n'] >= len(calls) - 1, None, 'idle worker')
-                    call(kind)
+                    call(kind, first)
                     while w.tasks:
                         w.run_task(0)
                 finally:
@@ -486,6 +557,15 @@ def configs(ctx):
         ('ignored', dict(hosts=3, targets=[t3], ignored=[t3], kinds=['status', 'topo', 'member'], modes=[], task_window=1), 6, 4),
         # two targets
         ('two', dict(hosts=3, targets=[t2, t3], kinds=['fail', 'status'], modes=['down'], task_window=1), 6, 3),
+        # two sessions, a host is added (it is not in the peers table when the driver connects): on_add() asks every
+        # session for a pool; the node may refuse one session's connection and accept the other's, and the two pool
+        # creations finish in either order
+        ('sessions-add', dict(hosts=2, sessions=2, targets=[t2], initial_gone=[t2], kinds=['fail', 'topo', 'member', 'refresh'],
+                              modes=['up', 'down', 'once'], task_window=2), 8, 3),
+        # two sessions, the host starts down with its reconnector (prefix: the node refuses, both pools' connections
+        # die): the reconnection gets through and on_up() asks every session for a pool, likewise
+        ('sessions-up', dict(hosts=2, sessions=2, targets=[t2], kinds=['fail', 'status'], modes=['up', 'down', 'once'], task_window=2,
+                             pre=[('mode', t2, 'down'), ('fail', t2), ('fail', t2, 1), ('drain',)]), 8, 3),
     ]
     if ctx.thorough:
         q = [(n, p, d + 2, e + 1) for n, p, d, e in q]
@@ -512,7 +592,8 @@ def run(ctx):
         sel = only.split(',')
         variants = [v for v in variants if 'S' in sel or ('S:' + v[0]) in sel]
     for label, bound, group in (('deep', hi, [v for v in variants if v[0] in deep]),
-                                ('wide', lo, [v for v in variants if v[0] not in deep])):
+                                ('wide', lo, [v for v in variants if v[0] not in deep and '-2s' not in v[0]]),
+                                ('sessions', lo, [v for v in variants if '-2s' in v[0]])):
         if group:
             sched.explore(ctx, 'c25-S-%s' % label, s_harness,
                           dict(hosts=2, targets=[T], scenarios=group, kinds=[], modes=[]), bound,
@@ -521,11 +602,16 @@ def run(ctx):
     ctx.cov['rule'] = ('history layer: state = event history replayed on a fresh real Cluster+Session; invariants judged in every state '
                        'whose executor queue is empty; non-trivial = distinct canonical state at depth >= 3 in which a host went '
                        'down, was removed or was added; outcomes = (idle?, #down hosts with one live reconnector, reconnect ok/'
-                       'failed/auth-failed seen, removed, removed while down, added, came up, went down).  Schedule layer: execution '
+                       'failed/auth-failed seen, removed, removed while down, added, came up, went down); counter '
+                       'idle_states_up_host_judged_in_every_session = idle states of the two-session configurations in which an up '
+                       'host was judged to have a pool in both sessions.  Schedule layer: execution '
                        '= one schedule within the preemption bound; non-trivial = at least one non-default scheduling choice; '
                        'outcomes = (scenario, member?, is_up, #live reconnectors, #listener calls, #policy calls)')
     ctx.assume('handlers are atomic with respect to each other in the history layer (single-threaded histories)')
     ctx.assume('the control-connection host 10.0.0.1 never fails and is never removed')
+    ctx.assume('two-session configurations: Cluster.sessions iterates in creation order (insertion-ordered stand-in for the WeakSet, '
+               'whose order is the address order of the Session objects); both completion orders of the queued pool creations '
+               'are enumerated by the explorer')
     ctx.assume('scheduled tasks fire in deadline order (what cluster._Scheduler does); executor tasks may overtake by one position')
     ctx.assume('topology events are truthful about the peers table at the moment they are sent (REMOVED_NODE only for a node '
                'that is not in it, NEW_NODE only for one that is); STATUS events may be stale')
